@@ -75,6 +75,32 @@ def run_special(job):
         u = ekf.sensor_model(st, cv, sensor_key="s", sensor_reading=ekf.make_reading("s", r=float(job["z"])))
         out = {"discarded": bool(u.state is st and u.covariance is cv), "state": float(u.state.data[0, 0]), "cov": float(u.covariance.data[0, 0]),
                "exported_k": ekf.config.innovation_filtering, "exported_config": {f.name: (getattr(ekf.config, f.name) if f.name != "python_modules" else "modules") for f in _dc.fields(python.Config)}}
+    elif job["kind"] == "noise_order":
+        # one estimator per declaration order of the per-sensor noise dictionaries; fitting with an optimiser that returns its
+        # starting point must hand every named value back under its own name, whatever the order
+        from types import SimpleNamespace
+        syms, model, sensors, pn, sn, cm = G.build(job["defn"], job.get("decl"))
+        X = np.array(job["X"], dtype=float)
+
+        def ident(fun, x0, **_kw):
+            fun(np.array(x0, dtype=float))
+            return SimpleNamespace(success=True, x=np.array(x0, dtype=float))
+        real = python.minimize
+        python.minimize = ident
+        try:
+            for order in ("sorted", "reversed"):
+                keys = sorted(sn, key=str)
+                keys = keys if order == "sorted" else keys[::-1]
+                sn2 = {k: dict(sorted(sn[k].items(), key=lambda kv: str(kv[0]), reverse=(order != "sorted"))) for k in keys}
+                est = python.SklearnEKFAdapter.Create(model, pn, sensors, sn2, cm, config=python.Config(innovation_filtering=None))
+                try:
+                    est.fit(X)
+                    snap = snapshot(est, None)
+                    out[order] = {"sensor_noises": snap["sensor_noises"], "process_noise": snap["process_noise"]}
+                except Exception as e:  # noqa
+                    out[order] = {"err": f"{type(e).__name__}: {e}"[:300]}
+        finally:
+            python.minimize = real
     elif job["kind"] == "toggle_cse":
         syms, model, sensors, pn, sn, cm = G.build(job["defn"], job.get("decl"))
         cfg = python.Config(innovation_filtering=job.get("k"), max_dt_sec=0.2, common_subexpression_elimination=True)
